@@ -1119,7 +1119,8 @@ TESTED_NOT_PROVED = [
     "SynCRN.build(parallel=True, max_workers=k) vs serial: identical graph (nodes, attributes, edges) and identical full event records "
     "(crn cases: rule lists whose leading rules produce no task) — the real process pool is compared at run time; the Gallina model of build "
     "treats executor.map as an order-preserving chunked map (its contract)",
-    "validate_smiles / dicts_balance_check with malformed entries in the middle of the list, every worker count vs serial",
+    "validate_smiles / dicts_balance_check: the real process pool (joblib) returns results in submission order — compared at run time for every worker "
+    "count of the cases and against the rows-parallel model fed with the single-row verdicts; the per-row checks themselves (RDKit, ITS) are abstract",
 ]
 LEVEL_TEXT = ("Machine-checked proof (Coq) over an executable heap+cache state machine modelling _RuleApplier and BatchReactor.fit: for every "
               "allocator (address-reuse history), every garbage-collection schedule and every cache size >= 1, each application returns "
